@@ -134,18 +134,26 @@ class Unit:
             self.cls = order({e[0]: order(before=e[-1])})(type("OvChild", (base,), {}))
         self.functions = ["apischema.ordering.sort_by_order", "apischema.ordering.get_order_overriding"]
         self.expect_tags = ["checked"]
-        self.assumptions = ["cyclic after / before chains are assumed away", "order values from {-1, 0, 1, 999}"]
+        self.assumptions = ["cyclic after / before chains: refused or kept whole (no placement to compare)", "order values from {-1, 0, 1, 999}"]
         self.relax = ()
 
     def body(self, ctx: Ctx) -> Optional[Failure]:
         spec = {n: fork_spec(ctx, self.names, i) for i, n in enumerate(self.names)}
         eff = dict(spec)
         eff.update(self.over)
-        if not acyclic(self.names, eff):
-            raise Assume("cyclic ordering specification")
         ctx.witness = {k: list(v) if v else None for k, v in spec.items()}
         ctx.run_phase()
         elts = [Elt(n, to_ordering(spec[n])) for n in self.names]
+        if not acyclic(self.names, eff):
+            # a cyclic specification has no placement: refusing it is fine, losing fields is not
+            ctx.notes["tag:checked"] = True
+            try:
+                res = [x.name for x in self.sort(self.cls, elts, lambda x: x.name, lambda x: x.ordering)]
+            except (ValueError, TypeError):
+                return None
+            if sorted(res) != sorted(self.names):
+                return Failure("field-lost-or-duplicated", witness=ctx.witness, extra={"result": res, "cyclic": True})
+            return None
         res = [x.name for x in self.sort(self.cls, elts, lambda x: x.name, lambda x: x.ordering)]
         ctx.notes["tag:checked"] = True
         if sorted(res) != sorted(self.names):
